@@ -610,7 +610,7 @@ def run(chk: Check):
         chk.notes.append('pipeline/mod.rs does not contain patches/C12-F7.patch: the model (which mirrors the patched decision) and the tree differ; '
                          'the oracle below searches for the failing history')
     base = os.path.join(chk.scratch, 'repos'); os.makedirs(base, exist_ok=True)
-    ncases, nrounds = (44, (3, 5)) if quick else (360, (3, 7))
+    ncases, nrounds = (120, (3, 5)) if quick else (1200, (3, 7))
     chk.extra['rule'] = (f'corpus (5 fixed histories: F7a, F7b, F7c, glob-digest vs glob-items under touch, failed run keeps the change) + {ncases} generated pipelines '
                          f'(2-6 steps in a random DAG of --step edges and output-file edges; modes by_dependencies/always/never; 0-3 dependencies per step over the kinds {KINDS}, '
                          'some sharing a file through different keys / line ranges / patterns) each with a history of '
